@@ -11,7 +11,7 @@
 #include <string>
 
 #define main test_gen_c_main
-#include "../../repo/test/src/test-gen-c.cpp"
+#include "test/src/test-gen-c.cpp"     // found through -I$(REPO)
 #undef main
 
 #include "uscxml/util/String.h"
